@@ -466,4 +466,23 @@ instance decSeqWF : (ops : List Op) → Decidable (SeqWF ops)
     have := decSeqWF ops
     by unfold SeqWF; infer_instance
 
+def Op.isEndPostamble : Op → Bool
+  | .endPostamble _ _ _ => true
+  | _ => false
+
+/-- No `EndPostamble` is directly followed by `EnableFont 52` (whose one-byte form is the
+padding byte 223 — finding C16-a). -/
+def Post52Free : List Op → Prop
+  | [] => True
+  | [_] => True
+  | op :: op2 :: ops =>
+      ¬ (op.isEndPostamble = true ∧ op2 = .enableFont 52) ∧ Post52Free (op2 :: ops)
+
+instance decPost52Free : (ops : List Op) → Decidable (Post52Free ops)
+  | [] => isTrue trivial
+  | [_] => isTrue trivial
+  | op :: op2 :: ops =>
+    have := decPost52Free (op2 :: ops)
+    by unfold Post52Free; infer_instance
+
 end C16
